@@ -21,6 +21,7 @@ import (
 //	q <lt> <id>                      query by gossip             → deliveries
 //	pp <eventLTime> <join01> <lt:hexname;…>   push/pull (join01=1: a join with ignore-old) → deliveries
 //	cfgfull <N> <Q> <k>              like cfg on a snapshot file k bytes below the compaction size
+//	plant <0|1>                      Shutdown, leave an empty / half-written <snapshot>.compact behind, Create → clocks
 //	restart                          Shutdown + Create on the same snapshot → `clocks <event_time> <query_time>`
 
 func c14Node(dir string, n, q int) (*evNode, error) {
@@ -162,6 +163,29 @@ func c14Exec(ops []string) []string {
 				nd.s.VerifSetEventJoinIgnore(false)
 			}
 			outs = append(outs, c14Show(nd.drain()))
+		case len(f) == 2 && f[0] == "plant":
+			// what a crash early in a compaction leaves behind: an empty (plant 0) or half-written (plant 1)
+			// <snapshot>.compact next to the complete snapshot; the next start must keep using the snapshot
+			nd.drain()
+			nd.close() // flushes the snapshot
+			nd = nil
+			var content []byte
+			if f[1] == "1" {
+				if b, err := os.ReadFile(dir + "/snap"); err == nil {
+					content = b[:len(b)/2]
+				}
+			}
+			if os.WriteFile(dir+"/snap.compact", content, 0644) != nil {
+				outs = append(outs, "bad-op")
+				continue
+			}
+			nd, err = c14Node(dir, n, q)
+			if err != nil {
+				outs = append(outs, "node-error")
+				nd = nil
+				continue
+			}
+			outs = append(outs, fmt.Sprintf("clocks %d %d", nd.stat("event_time"), nd.stat("query_time")))
 		case len(f) == 1 && f[0] == "restart":
 			nd.drain()
 			nd.close() // Shutdown waits for the snapshotter to flush
@@ -210,6 +234,12 @@ func c14Gen(rng *rand.Rand, tier string) []Case {
 			}
 			out = append(out, Case{ID: fmt.Sprintf("full%d-%d", k, m), Ops: ops, Nontrivial: true, Tags: []string{"compaction-at-record"}})
 		}
+	}
+	// a restart that finds a left-over compaction file beside the complete snapshot
+	for i, half := range []string{"0", "1"} {
+		out = append(out, Case{ID: "leftover-compact-" + half, Ops: []string{"cfg 4 4", "ev 5 " + hexs("a"), "q 6 1", "ev 7 " + hexs("b"),
+			"plant " + half, "ev 5 " + hexs("a"), "ev 7 " + hexs("b"), "q 6 1", "ev 8 " + hexs("c")}, Nontrivial: true, Tags: []string{"leftover-compact"}})
+		_ = i
 	}
 	names := []string{"a", "b", "c"}
 	for i := 0; i < n; i++ {
